@@ -1346,6 +1346,14 @@ func (e *c01Env) cfgRun(f []string) (obs []string) {
 var c01CfgDomains = []string{"ads.example.org", "tracker.net", "example.com", "cdn.tracker.net", "shop.example.com", "metrics.io"}
 
 func c01CfgContent(r *rand.Rand) (lines []string) {
+	switch r.IntN(7) {
+	case 0:
+		// an empty download
+		return nil
+	case 1:
+		// comments only: no rule either
+		return []string{"! Title: nothing here", "# no rules"}
+	}
 	for n := 1 + r.IntN(3); n > 0; n-- {
 		d := vutil.Pick(r, c01CfgDomains)
 		lines = append(lines, vutil.Pick(r, []string{"||" + d + "^", "||" + d + "^", "0.0.0.0 " + d, "||" + d + "^$important", "@@||" + d + "^", d}))
